@@ -33,6 +33,18 @@ pub const CORPUS_PICKS: &[&str] = &[
     "Australia/Adelaide",
 ];
 
+/// every vendored path (for picking real zones beyond the curated list)
+const CORPUS_INDEX: &str = include_str!("../../corpus/INDEX.txt");
+
+/// A real zone: half of the time from the curated list, otherwise any of the 1243 vendored paths.
+pub fn corpus_pick(r: &mut Rng) -> String {
+    if r.chance(1, 2) {
+        return r.pick(CORPUS_PICKS).to_string();
+    }
+    let n = CORPUS_INDEX.lines().count();
+    CORPUS_INDEX.lines().nth(r.usize(n.max(1))).unwrap_or("UTC").to_string()
+}
+
 const ALNUM: &[u8] = b"ABCDEFGHIJKLMNOPQRSTUVWXYZabcdefghijklmnopqrstuvwxyz0123456789+-";
 const ALPHA: &[u8] = b"ABCDEFGHIJKLMNOPQRSTUVWXYZabcdefghijklmnopqrstuvwxyz";
 
@@ -583,7 +595,7 @@ pub fn gen_contents_basic(r: &mut Rng, sc: &mut Scenario, n: usize, allow_invali
             continue;
         }
         let c = match r.below(10) {
-            0 | 1 => Content::Corpus(r.pick(CORPUS_PICKS).to_string()),
+            0 | 1 => Content::Corpus(corpus_pick(&mut *r)),
             2 if i > 0 => Content::Typed { base: r.usize(i), kind: r.pick(TYPED_KINDS).to_string(), arg: r.next() % 100_000 },
             3 if allow_invalid => Content::Hex((0..r.below(60)).map(|_| r.next() as u8).collect()),
             _ => Content::Gen(gen_zone(r, ZoneOpts { tag: Some(i as u32 * 7 + 1), dense: false, allow_invalid, allow_huge: false, i32_times: false })),
@@ -802,7 +814,7 @@ pub fn gen_c15(seed: u64) -> Scenario {
     let mut specs: Vec<Option<ZoneSpec>> = Vec::new();
     for i in 0..ncont {
         if r.chance(1, 4) {
-            sc.contents.push(Content::Corpus(r.pick(CORPUS_PICKS).to_string()));
+            sc.contents.push(Content::Corpus(corpus_pick(&mut r)));
             specs.push(None);
         } else {
             let prev_sibling = if i > 0 && r.chance(1, 2) { specs[i - 1].clone().and_then(|p: ZoneSpec| sibling(&p, [3600, -3600, 7200, 1800][r.usize(4)])) } else { None };
@@ -909,7 +921,8 @@ pub fn gen_c15(seed: u64) -> Scenario {
                 6 => Op::Project { z, t, ns: 5, to: if r.chance(1, 2) { ZRef::S(r.usize(2)) } else { ZRef::K(r.usize(4)) } },
                 7 => Op::UtcProject { t, ns: 0, to: z },
                 8 | 9 => Op::Find { z, f },
-                10 | 11 => Op::FindN { z, f, n: r.usize(4), buf: r.usize(2) },
+                10 => Op::FindN { z, f, n: r.usize(4), buf: r.usize(2) },
+                11 => Op::FindAt { z, pick: r.below(64), delta: r.range(-2, 2) * 1800, n: r.usize(4), buf: r.usize(2) },
                 12 => Op::Format { z, t, ns: 1 },
                 13 => Op::Now { z },
                 14 => {
@@ -1023,7 +1036,7 @@ pub fn gen_c08(seed: u64) -> Scenario {
         }
     }
     if r.chance(1, 5) {
-        sc.contents.push(Content::Corpus(r.pick(CORPUS_PICKS).to_string()));
+        sc.contents.push(Content::Corpus(corpus_pick(&mut r)));
         let cid = sc.contents.len() - 1;
         ops.push(Op::Decode { cid, fault: None, slot: 5 });
         for _ in 0..3 {
@@ -1055,7 +1068,7 @@ pub fn gen_c07(seed: u64) -> Scenario {
     let n = 1 + r.usize(3);
     for i in 0..n {
         let c = if r.chance(1, 3) {
-            Content::Corpus(r.pick(CORPUS_PICKS).to_string())
+            Content::Corpus(corpus_pick(&mut r))
         } else {
             Content::Gen({ let zo = ZoneOpts { tag: None, dense: r.chance(1, 3), allow_invalid: r.chance(1, 2), allow_huge: r.chance(1, 30), i32_times: false }; gen_zone(&mut r, zo) })
         };
@@ -1191,7 +1204,7 @@ pub fn gen_c17(seed: u64) -> Scenario {
     let mut ops = Vec::new();
     for i in 0..nz {
         if r.chance(1, 6) {
-            sc.contents.push(Content::Corpus(r.pick(CORPUS_PICKS).to_string()));
+            sc.contents.push(Content::Corpus(corpus_pick(&mut r)));
             specs.push(None);
         } else {
             let z = { let zo = ZoneOpts { tag: Some(i as u32 + 1), dense: r.chance(3, 4), allow_invalid: false, allow_huge: false, i32_times: r.chance(2, 3) }; gen_zone(&mut r, zo) };
@@ -1230,9 +1243,20 @@ pub fn gen_c17(seed: u64) -> Scenario {
             }
         };
         let buf = r.usize(2);
-        match r.below(8) {
+        match r.below(10) {
             0 => ops.push(Op::Resize { buf, n: r.usize(6) }),
             1 => ops.push(Op::Find { z, f }),
+            2 | 3 | 4 => {
+                // at the zone's own transitions (works for real zones too)
+                let delta = match r.below(5) {
+                    0 => 0,
+                    1 => -1,
+                    2 => r.range(-3700, 3700),
+                    3 => r.range(-100, 100),
+                    _ => r.range(-90000, 90000),
+                };
+                ops.push(Op::FindAt { z, pick: r.next() >> 8, delta, n: r.usize(6), buf })
+            }
             _ => ops.push(Op::FindN { z, f, n: r.usize(6), buf }),
         }
     }
@@ -1299,7 +1323,8 @@ pub fn gen_c19(seed: u64) -> Scenario {
             5 => Op::FromTotal { z, n: (t as i128) * 1_000_000_000 + ns as i128 },
             6 => Op::Project { z, t, ns, to: if r.chance(1, 2) { ZRef::P(r.usize(nz)) } else { ZRef::K(r.usize(4)) } },
             7 => Op::UtcProject { t, ns, to: z },
-            8 | 9 => Op::FindN { z, f, n: r.usize(5), buf: r.usize(2) },
+            8 => Op::FindN { z, f, n: r.usize(5), buf: r.usize(2) },
+            9 => Op::FindAt { z, pick: r.next() >> 8, delta: r.range(-4000, 4000), n: r.usize(5), buf: r.usize(2) },
             10 => Op::Find { z, f },
             11 => Op::Format { z, t, ns },
             _ => {
